@@ -26,7 +26,7 @@ def tag_of(data):
 
 VARIANTS = ['upgrade_ok', 'upgrade_fail_frame', 'upgrade_fail_close', 'polling_only', 'ws_only',
             'two_sessions', 'close_during', 'upgrade_no_pending_poll', 'backlog_polling', 'backlog_ws',
-            'backlog_upgrade', 'overlapping_opens', 'upgrade_fail_accept']
+            'backlog_upgrade', 'overlapping_opens', 'upgrade_fail_accept', 'backlog_ping']
 
 
 class _SlowConnect:
@@ -86,10 +86,52 @@ class Delivery(core.Scenario):
                 self.flag('cross_delivery' if got_msgs else 'message_lost',
                           'client %d (told sid ..%s) read %r, want %r' % (i, t[-4:], got_msgs, want), trigger='overlapping_opens')
 
+    def build_backlog_ping(self):
+        """A backlog that contains a heartbeat PING between application messages: a messages are queued, the first
+        PING falls due (nobody is polling), b more messages are queued, then the client reads until nothing is left."""
+        p = self.params
+        a, b = p['k'] // 100, p['k'] % 100
+        w = self.world = peer.make_world(p['impl'], server_kwargs=dict(ping_interval=1, ping_timeout=50, async_handlers=False))
+        self.horizon = 1.5
+        self.sends, self.polls, self.ws = [], {}, {}
+        self.fail_step = None
+        self.closed_by_client = {}
+        self.B = None
+        A = self.A = peer.sid_of(peer.open_polling(w))
+        self.polls[A] = []
+
+        def burst(lo, hi, name, nb):
+            def fire(sc):
+                c = sc.world.call_seq('send', [(A, PAYLOADS[i]) for i in range(lo, hi)])
+                for i in range(lo, hi):
+                    sc.sends.append((tag_of(PAYLOADS[i]), A, c, sc.world.nstep))
+            return core.Action(name, fire, None, nb)
+
+        def poll(sc):
+            sc.polls[A].append(peer.poll(sc.world, A, run=False))
+        self.scripts = [[burst(0, a, 'burst-before-ping', None), burst(a, a + b, 'burst-after-ping', 1.0625),
+                         core.Action('poll', poll, None, 1.125)]]
+
+    def finish_backlog_ping(self):
+        w = self.world
+        self.drain(self.A)
+        kinds = []
+        for r in self.polls[self.A]:
+            if r.done and r.status == 200:
+                pk = peer.decode_body(r.text())
+                kinds.append([t for t, d in pk])
+                if len(pk) > 16:
+                    self.flag('batch_over_receiver_limit', 'a poll response carries %d packets; receivers refuse bodies of more than 16 (C02), '
+                              'so everything in it is lost' % len(pk), trigger='backlog_ping')
+        if not any(2 in k for k in kinds):
+            self.flag('scenario_vacuous', 'no PING among the polled packets: %r' % kinds, trigger='backlog_ping')
+
     def build(self):
         p = self.params
         if p['variant'] == 'overlapping_opens':
             return self.build_overlapping()
+        if p['variant'] == 'backlog_ping':
+            return self.build_backlog_ping()
         impl, variant, k = p['impl'], p['variant'], p['k']
         w = self.world = peer.make_world(impl, server_kwargs=dict(ping_interval=50, ping_timeout=50, async_handlers=False))
         self.sends = []      # (tag, sid, call)
@@ -244,6 +286,8 @@ class Delivery(core.Scenario):
         p = self.params
         if p['variant'] == 'overlapping_opens':
             return self.finish_overlapping()
+        if p['variant'] == 'backlog_ping':
+            self.finish_backlog_ping()
         for sid in [self.A] + ([self.B] if self.B else []):
             self.drain(sid)
         variant = p['variant']
@@ -318,6 +362,8 @@ def param_list(ctx):
             ks = (2, 3) if v in ('upgrade_ok', 'upgrade_fail_frame', 'upgrade_fail_accept') else (2,)
             if v.startswith('backlog'):
                 ks = (17, 20, 40)
+            if v == 'backlog_ping':
+                ks = (515, 1406, 115, 1505)      # a * 100 + b: a messages before the PING, b after it
             if not ctx.quick and v in ('polling_only', 'upgrade_fail_close', 'upgrade_no_pending_poll'):
                 ks = (2, 3)
             for k in ks:
